@@ -185,37 +185,29 @@ Cycle4(s, prog, fin) ==
      ELSE IF Complete(b) THEN [b EXCEPT !.done = TRUE]
      ELSE b
 
-(* Fast-forward: when every unit is either counting down a latency or idle with empty latches,  *)
-(* nothing but the counters changes until the first of them is about to expire; those cycles are  *)
-(* skipped in one step (the 309-cycle memory accesses dominate every run).  The cycle in which a  *)
-(* counter reaches zero is always simulated by Cycle4.                                            *)
-Quiet(s, n) ==
-  /\ ~s.fclean
-  /\ (s.fcomplete \/ (s.fproc /\ s.frem > 1 /\ s.pc \div 4 < n))
-  /\ (s.dpend \/ s.ebus.p # <<>> \/ BusEmpty(s.dbus))
-  /\ \/ s.epend /\ s.erem > 1
-     \/ ~s.epend /\ s.eproc /\ s.erem > 1
-     \/ ~s.epend /\ ~s.eproc /\ BusEmpty(s.ebus)
-  /\ ((s.wpend /\ s.wcyc > 1) \/ (~s.wpend /\ BusEmpty(s.wbus)))
-Counters(s) ==
-  (IF ~s.fcomplete /\ s.fproc THEN {s.frem - 1} ELSE {})
-  \cup (IF s.epend \/ s.eproc THEN {s.erem - 1} ELSE {})
-  \cup (IF s.wpend THEN {s.wcyc - 1} ELSE {})
-MinOf(S) == CHOOSE x \in S : \A y \in S : x <= y
-Skip(s, d) ==
-  [s EXCEPT !.cycle = @ + d,
-            !.frem = IF ~s.fcomplete /\ s.fproc THEN @ - d ELSE @,
-            !.erem = IF s.epend \/ s.eproc THEN @ - d ELSE @,
-            !.wcyc = IF s.wpend THEN @ - d ELSE @]
-
+(* Fast-forward: a cycle in which nothing changes but latency counters going down by one (units     *)
+(* counting a latency, or retrying a blocked step whose blocker is itself counting) repeats itself  *)
+(* until the first of those counters is about to expire; those cycles are taken in one step (the    *)
+(* 309-cycle memory accesses dominate every run).  The cycle in which a counter reaches zero is     *)
+(* always simulated by Cycle4.                                                                      *)
+Min2(a, b) == IF a < b THEN a ELSE b
 RECURSIVE Run4(_, _, _, _)
 Run4(s, prog, fin, fuel) ==
   IF s.done \/ fuel = 0 THEN s
-  ELSE IF Quiet(s, Len(prog)) /\ Counters(s) # {} /\ MinOf(Counters(s)) >= 1
-       THEN Run4(Cycle4(Skip(s, MinOf(Counters(s))), prog, fin), prog, fin, fuel - 1)
-       ELSE Run4(Cycle4(s, prog, fin), prog, fin, fuel - 1)
+  ELSE LET s1 == Cycle4(s, prog, fin)
+           dF == s.frem - s1.frem
+           dE == s.erem - s1.erem
+           dW == s.wcyc - s1.wcyc
+           pure == /\ ~s1.done
+                   /\ [s1 EXCEPT !.cycle = s.cycle, !.frem = s.frem, !.erem = s.erem, !.wcyc = s.wcyc] = s
+                   /\ dF \in {0, 1} /\ dE \in {0, 1} /\ dW \in {0, 1} /\ dF + dE + dW > 0
+                   /\ (dF = 1 => s1.frem >= 2) /\ (dE = 1 => s1.erem >= 2) /\ (dW = 1 => s1.wcyc >= 2)
+           big == 1000000
+           d == Min2(IF dF = 1 THEN s1.frem ELSE big, Min2(IF dE = 1 THEN s1.erem ELSE big, IF dW = 1 THEN s1.wcyc ELSE big)) - 1
+       IN IF pure
+          THEN Run4([s1 EXCEPT !.cycle = @ + d, !.frem = @ - dF * d, !.erem = @ - dE * d, !.wcyc = @ - dW * d], prog, fin, fuel - 1)
+          ELSE Run4(s1, prog, fin, fuel - 1)
 
-(* the cycle count returned by mvp4.CPU.Run: loop cycles + 309 per resident data line; -1 if the model gave up *)
 (* lost = the executed instructions (1-based positions in fin.ev) whose write-back the run drops *)
 ResP(prog, fin, withBtb) ==
   IF fin.status \notin {"ret", "end"} \/ fin.misal THEN [cyc |-> -1, lost |-> {}]
